@@ -12,7 +12,7 @@ META = {
         "text": "Kernel-checked: decode (encode v ++ rest) = (norm v, rest) for every resolved schema type and every well-typed value (no size bound besides int32 frames), frame size prefix = bytes that follow, a framed response is consumed exactly, unknown tagged fields are skipped, model encoder = Kafka reference encoder; Conn codec: legacy_size, legacy_model, legacy_eq_spec, read_write, legacy_read_spec for every translated type / call site; instantiated at every registered API x version re-extracted from the source. Tied to the code by regenerated schemas and by running WriteRequest/WriteResponse/ReadRequest/ReadResponse (default and unsafe builds) against the model on generated values, both directions.",
         "design_ref": "DESIGN.md §7 C04",
     },
-    "level_note": "Trusted: Lean kernel + propext/Classical.choice/Quot.sound; the go/ast schema extractor; the driver/oracle correspondence (sampled values); Spec/KafkaWire.lean and the golden table Spec/KafkaSchemas.lean are transcriptions from the published Kafka protocol (23 APIs audited, the others follow the tree: snapshot-unaudited); RecordSet payloads are opaque blobs here (C05). Conn codec: the go/ast translators of go/extract/legacy (types, writers, readers — untranslatable items are listed in Gen.Legacy.untranslated / noReader / noSchema and covered by correspondence only); []byte nil ~ empty and the `remain` byte accounting of the readers are not modelled; which argument lands in which same-typed field of a write*RequestV* body is checked by correspondence (connreqv) only.",
+    "level_note": "Trusted: Lean kernel + propext/Classical.choice/Quot.sound; the go/ast schema extractor; the driver/oracle correspondence (sampled values); Spec/KafkaWire.lean and the golden table Spec/KafkaSchemas.lean are transcriptions from the published Kafka protocol (all 39 registered APIs audited over the tree's version ranges, CreateTopics v5 excepted; nullability deviations are accepted as audit notes and follow the tree); RecordSet payloads are opaque blobs here (C05). Conn codec: the go/ast translators of go/extract/legacy (types, writers, readers — untranslatable items are listed in Gen.Legacy.untranslated / noReader / noSchema and covered by correspondence only); []byte nil ~ empty and the `remain` byte accounting of the readers are not modelled; which argument lands in which same-typed field of a write*RequestV* body is checked by correspondence (connreqv) only.",
 }
 
 MODULE = "KafkaVerif.Props.C04"
@@ -23,7 +23,7 @@ def run(ctx, variants=(("verif", "c04"), ("verif,unsafe", "c04u"))):
         "values fit int32-sized frames: strings < 2^15 bytes in non-flexible versions, arrays/bytes < 2^31 (WellTyped)",
         "schemas are well-formed (Ty.wf, evaluated on every resolved registered schema): array elements have positive width, tag ids distinct and >= 0",
         "RecordSet / RawRecordSet fields are an int32-size-prefixed opaque payload (their inside is C05)",
-        "golden table: Produce, Fetch, ListOffsets, Metadata, OffsetCommit, OffsetFetch, FindCoordinator, JoinGroup, Heartbeat, LeaveGroup, SyncGroup, ApiVersions audited; other APIs snapshot-unaudited (reference = tree)",
+        "golden table: all 39 APIs registered by the tree are audited (transcribed from the Kafka message definitions) over the version ranges the tree supports, CreateTopics v5 excepted (reference = tree there); nullability deviations accepted as audit notes (Spec.auditNotes); C04-D30 (DescribeAcls v2-v3 request) is a known finding",
         "Go's empty string stands for null in nullable string fields (library convention accepted as canonical)",
     ]
     broken = []
